@@ -123,12 +123,15 @@ def run_job(j):
         kw["max_distance"] = mx
     if len(targets):
         kw["target_values"] = list(targets)
+    if j.get("dims"):
+        kw["y"], kw["x"] = j["dims"]
 
     def mk():
         data = vals.copy()
         if j.get("dtype"):
             data = data.astype(j["dtype"])
-        r = xr.DataArray(data, dims=["y", "x"], coords={"y": ys.copy(), "x": xs.copy()})
+        dy, dx = j.get("dims", ["y", "x"])
+        r = xr.DataArray(data, dims=[dy, dx], coords={dy: ys.copy(), dx: xs.copy()})
         if j.get("chunks"):
             import dask.array as da
             r.data = da.from_array(data, chunks=(tuple(j["chunks"][0]), tuple(j["chunks"][1])))
@@ -164,12 +167,11 @@ def run_job(j):
     if err is not None:
         case["error"] = err
         return case
-    # value -> cell id for allocation (driver guarantees unique values on target cells)
-    val2id = {}
-    for r in range(H):
-        for c in range(W):
-            if mask[r, c]:
-                val2id.setdefault(float(vals[r, c]), []).append(r * W + c)
+    # raster values as small integer codes (rank of the distinct non-NaN values); allocation is judged by VALUE:
+    # it must be the value of a target cell lying at the reported distance (target values may repeat)
+    distinct = sorted({float(v) for v in vals.ravel() if not np.isnan(v)})
+    code = {v: i for i, v in enumerate(distinct)}
+    case["vcode"] = [[(-1 if np.isnan(v) else code[float(v)]) for v in row] for row in vals]
     prox, alloc, dirs, dirT = [], [], [], []
     for r in range(H):
         pr, ar, dr, tr = [], [], [], []
@@ -177,11 +179,7 @@ def run_job(j):
             v = float(p[r, c])
             pr.append(-1 if np.isnan(v) else enc(v))
             av = float(a[r, c])
-            if np.isnan(av):
-                ar.append(-1)
-            else:
-                ids = val2id.get(av, [])
-                ar.append(ids[0] if len(ids) == 1 else -2)
+            ar.append(-1 if np.isnan(av) else code.get(av, -2))
             dv = float(d[r, c])
             if np.isnan(dv):
                 dr.append(-1)
